@@ -626,7 +626,9 @@ func TestC15(t *testing.T) {
 	p.rapidSub("infn", ev.Scale(2500, 300000), func(t *rapid.T) {
 		fnNames := append(append([]string{}, names...), "n")
 		mk := func(label string, rec bool) tnode {
-			n := tnode{K: "list"}
+			// the template that is the function's value is a list or an array (^[...] takes
+			// another path through the generator than ^(...))
+			n := tnode{K: rapid.SampledFrom([]string{"list", "list", "arr"}).Draw(t, label+"k")}
 			for i := 0; i < rapid.IntRange(0, 4).Draw(t, label+"n"); i++ {
 				n.Kids = append(n.Kids, genTmpl(t, 2, fnNames, true, true))
 			}
@@ -636,9 +638,15 @@ func TestC15(t *testing.T) {
 		nrec := rapid.IntRange(1, 2).Draw(t, "nrec")
 		kinds := []string{}
 		for i := 0; i < nrec; i++ {
-			k := rapid.SampledFrom([]string{"splx", "splx", "unqx"}).Draw(t, "reck")
+			k := rapid.SampledFrom([]string{"splx", "unqx"}).Draw(t, "reck")
 			kinds = append(kinds, k)
 			c.Step = insertRec(t, c.Step, tnode{K: k, S: tmplRecSrc}, 0)
+		}
+		for _, k := range kinds {
+			if k == "splx" {
+				// only lists can be spliced ((tf k) is the base or the step template's value)
+				c.Base.K, c.Step.K = "list", "list"
+			}
 		}
 		c.Wrap = rapid.SampledFrom([]string{"none", "none", "let", "letseq", "begin", "newScope", "and"}).Draw(t, "wrap")
 		c.Depth = rapid.IntRange(0, 4).Draw(t, "depth")
@@ -650,6 +658,9 @@ func TestC15(t *testing.T) {
 		labels := []string{"wrap:" + c.Wrap, fmt.Sprintf("depth:%d", c.Depth)}
 		for _, k := range kinds {
 			labels = append(labels, "recursive-"+k)
+		}
+		if c.Step.K == "arr" {
+			labels = append(labels, "function-value-is-array-template")
 		}
 		if last {
 			labels = append(labels, "recursive-call-is-last-template-element")
